@@ -181,7 +181,16 @@ def execOp (chk : Bool) (tok : List String) : String :=
       | .ok (.ok sig) =>
         let v := renderRes (fun o => match o with | none => "Undecodable" | some b => toString b)
           (Verify.verifyBytes chk n msg sig (parseHex pk))
-        renderHex sig ++ " " ++ v ++ " frac<1e-3"
+        -- the hypotheses of `C01.signed_bytes_verify`, evaluated on this key / salt / message
+        let hyp := match KeyCodec.pkFromBytes n (parseHex pk) with
+          | .ok (.ok h) =>
+            let k := KeygenSkel.keyCheck n (parseInts f) (parseInts g) (parseInts cf) (parseInts cg) h
+            if k ≠ "ok" then k
+            else if (Hash.hashToPoint (parseHex salt ++ msg) n).length ≠ n then "hash-short"
+            else if (parseHex salt).length ≠ 40 then "salt-length"
+            else "ok"
+          | _ => "pk-undecodable"
+        renderHex sig ++ " " ++ v ++ " frac<1e-3 hyp=" ++ hyp
   | ["sign", _, _, _, _] => "skip"
   | ["sign_salt", _, _, _, _] => "skip"
   | ["sign_fresh", _, _, _, _] => "skip"
